@@ -93,6 +93,9 @@ class _B:
     def __init__(self):
         self.inputs, self.inits, self.outputs = [], [], []
         self.n = 0
+        self.custom_domain = "cust"   # functions use a private domain the main graph does not import
+        self.valnames = False         # exporter-style `val_<n>` names for the outputs of subgraph bodies
+        self.valctr = 0
 
     def fresh(self):
         self.n += 1
@@ -103,7 +106,7 @@ def _strand(b: _B, node: dict, out_sink: list, subgraph_of=None):
     """Emit the NodeProto for one case node; register its inputs in `b`, its output in `out_sink`."""
     op, p = node["op"], b.fresh()
     k = op["k"]
-    dom = "" if node["d"] else "cust"
+    dom = "" if node["d"] else b.custom_domain
     extra_attrs = []
     if node["ref"]:
         a = onnx.AttributeProto()
@@ -208,11 +211,21 @@ def _emit_nodes(b: _B, nodes: list, out_sink: list, funcs_sig=None):
             for bi, body in enumerate(node["bodies"]):
                 bouts: list = []
                 bnodes = _emit_nodes(b, body, bouts)
+                if b.valnames:
+                    # the body's outputs are produced directly by a node and consumed by no node
+                    for vo in bouts:
+                        new = f"val_{b.valctr}"
+                        b.valctr += 1
+                        for bn in bnodes:
+                            for oi, on in enumerate(bn.output):
+                                if on == vo.name:
+                                    bn.output[oi] = new
+                        vo.name = new
                 graphs.append(h.make_graph(bnodes, f"{p}_b{bi}", [], bouts))
                 outs_per.append(bouts)
             nout = max(len(o) for o in outs_per) if outs_per else 0
             onames = [f"{p}_y{j}" for j in range(nout)]
-            n = h.make_node("If", [f"{p}_c"], onames, domain="" if node["d"] else "cust")
+            n = h.make_node("If", [f"{p}_c"], onames, domain="" if node["d"] else b.custom_domain)
             names = ["then_branch", "else_branch"] + [f"extra_branch{j}" for j in range(len(graphs))]
             for nm, g in zip(names, graphs):
                 n.attribute.append(h.make_attribute(nm, g))
@@ -233,6 +246,8 @@ def build_proto(case: dict) -> onnx.ModelProto:
     funcs, sig = [], []
     for i, f in enumerate(case["funcs"]):
         fb = _B()
+        fb.custom_domain = "priv"
+        fb.valnames = bool(case.get("valnames"))
         fouts: list = []
         fnodes = _emit_nodes(fb, f["nodes"], fouts)
         # function inputs: value inputs and (as plain inputs) what would be initializers
@@ -242,7 +257,7 @@ def build_proto(case: dict) -> onnx.ModelProto:
             imports.append(h.make_opsetid("", f["decl"]))
         if f["ai"] is not None:
             imports.append(h.make_opsetid("ai.onnx", f["ai"]))
-        imports.append(h.make_opsetid("cust", 1))
+        imports += [h.make_opsetid("cust", 1), h.make_opsetid("priv", 1)]
         fp = h.make_function("fn", f"F{i}", [v.name for v in fin], [v.name for v in fouts], fnodes, opset_imports=imports)
         if any(n["ref"] for n in iter_nodes(f["nodes"])):
             fp.attribute.append("verif_a")
@@ -250,14 +265,17 @@ def build_proto(case: dict) -> onnx.ModelProto:
         sig.append((fin, fouts, {t.name: t for t in fb.inits}))
     b = _B()
     b.n = 100
+    b.valnames = bool(case.get("valnames"))
     outs: list = []
     nodes = _emit_nodes(b, case["nodes"], outs, sig)
     for j in range(case.get("extra_inits", 0)):
         # an initializer that is also consumed: Add(x, w) strand; the 2nd one is larger than the C-API size limit
-        size = 4 if j % 2 == 0 else 1200
+        # w0 small; w1 big (> the 1000-element limit of call_onnx_api: stripped for the C API);
+        # w2 big AND a graph input (overridable default); w3 small and a graph input
+        size = 4 if j in (0, 3) else 1200
         nm = f"w{j}"
         b.inits.append(nh.from_array(np.ones(size, dtype=np.float32), nm))
-        if j % 3 == 2:
+        if j >= 2:
             b.inputs.append(vi(nm, [size]))  # an initializer that is also a graph input
         b.inputs.append(vi(f"wx{j}", [size]))
         nodes.append(h.make_node("Add", [f"wx{j}", nm], [f"wy{j}"]))
